@@ -69,7 +69,7 @@ class LimiterSystem:
         self.line = self.marks[target]
         self.target = target
         args = tp_args(cfg)
-        numeric = cfg['ck'] == 'num' or cfg['pk'] == 'num'
+        numeric = cfg['ck'] in ('num', 'odd') or cfg['pk'] in ('num', 'odd')
         if cfg.get('ws', 0) or cfg.get('we', 0) or numeric:
             # build_trigger does not forward window_*; windows are reachable through LocationAction directly
             from deep.api.tracepoint.trigger import LocationAction, LineLocation, Trigger, Location
@@ -80,6 +80,10 @@ class LimiterSystem:
                 conf['fire_count'] = int(cfg['cv'])              # a number, as register_tracepoint(args={...}) may pass it
             if cfg['pk'] == 'num':
                 conf['fire_period'] = int(cfg['pv'] * R.TICK_MS)
+            if cfg['ck'] == 'odd':
+                conf['fire_count'] = None                        # no number at all: the default, like unparsable text
+            if cfg['pk'] == 'odd':
+                conf['fire_period'] = [3] if cfg['ck'] == 'odd' else float('inf')
             if cfg['ws']:
                 conf['window_start'] = R.BASE_NS + cfg['ws'] * R.TICK_NS
             if cfg['we']:
